@@ -503,14 +503,20 @@ var reBoxUnsafeUnit = regexp.MustCompile(`(?i)(margin|padding|inset|top|right|bo
 var reAmpInFunctional = regexp.MustCompile(`:(is|where|not|has)\([^)]*&`)
 var reInsetNonNumeric = regexp.MustCompile(`inset\s*:[^;}]*(auto|calc\()`)
 
-var subs = map[string]vdrv.ReplayFunc{"color": replaySheet, "calc": replaySheet, "cascade": replaySheet, "import": replayImport}
+var subs = map[string]vdrv.ReplayFunc{"color": replaySheet, "calc": replaySheet, "cascade": replaySheet, "import": replayImport, "modules": replayModules}
 
 func setup(t *testing.T) {
 	H = vdrv.New("C12")
+	var err error
+	W, err = noderun.Start("")
+	if err != nil {
+		t.Fatalf("INFRA: %v", err)
+	}
 }
 
 func TestCheck(t *testing.T) {
 	setup(t)
+	defer W.Close()
 	complete := false
 	defer func() { H.Finish(complete) }()
 	H.RunReplays(t, subs)
@@ -518,10 +524,12 @@ func TestCheck(t *testing.T) {
 	H.Sub(t, "calc", runCalc)
 	H.Sub(t, "cascade", runCascade)
 	H.Sub(t, "import", runImports)
+	H.Sub(t, "modules", runModules)
 	complete = true
 }
 
 func TestReplay(t *testing.T) {
 	setup(t)
+	defer W.Close()
 	H.ReplayOne(t, subs)
 }
